@@ -46,18 +46,18 @@ def catalogue():
     return {
         "incr": (lambda L: E.increment(L, CTX), (1, 0), "map 0"),
         "double": (lambda L: E.multiply(L, 2, CTX), (1, 0), "double 0"),
-        "add-scalar": (lambda L: E.add(L, 5, CTX), (1, 0), None),
-        "compare": (lambda L: E.less_than(L, 7, CTX), (1, 0), None),
+        "add-scalar": (lambda L: E.add(L, 5, CTX), (1, 0), "addk 5"),
+        "compare": (lambda L: E.less_than(L, 7, CTX), (1, 0), "ltk 7"),
         # every operand shape of the dyadic vectorise skeleton (C08): scalar on the left, list on the left, two lists, nested
-        "scalar-left-add": (lambda L: E.add(5, L, CTX), (1, 0), None),
-        "scalar-left-sub": (lambda L: E.subtract(10, L, CTX), (1, 0), None),
-        "scalar-left-mul": (lambda L: E.multiply(3, L, CTX), (1, 0), None),
-        "scalar-left-cmp": (lambda L: E.less_than(7, L, CTX), (1, 0), None),
+        "scalar-left-add": (lambda L: E.add(5, L, CTX), (1, 0), "kadd 5"),
+        "scalar-left-sub": (lambda L: E.subtract(10, L, CTX), (1, 0), "ksub 10"),
+        "scalar-left-mul": (lambda L: E.multiply(3, L, CTX), (1, 0), "kmul 3"),
+        "scalar-left-cmp": (lambda L: E.less_than(7, L, CTX), (1, 0), "klt 7"),
         "list-list-add": (lambda L: E.add(L, E.multiply(L, 2, CTX), CTX), (2, 2), None),
         "finite-left-add": (lambda L: E.add([1, 2, 3], L, CTX), (1, 1), None),
         "nested-scalar-left": (lambda L: E.add(1, E.wrap(L, 2, CTX), CTX), (2, 2), None),
-        "explicit-v-right": (lambda L: E.vectorise(E.add, L, 5, explicit=True, ctx=CTX), (1, 0), None),
-        "explicit-v-left": (lambda L: E.vectorise(E.add, 5, L, explicit=True, ctx=CTX), (1, 0), None),
+        "explicit-v-right": (lambda L: E.vectorise(E.add, L, 5, explicit=True, ctx=CTX), (1, 0), "addk 5"),
+        "explicit-v-left": (lambda L: E.vectorise(E.add, 5, L, explicit=True, ctx=CTX), (1, 0), "kadd 5"),
         "map-lambda": (lambda L: E.vy_map(L, inc, CTX), (1, 0), "map 0"),
         "filter-odd": (lambda L: E.vy_filter(L, odd, CTX), (2, 2), "filtermod-odd"),
         "zip-self": (lambda L: E.vy_zip(L, E.increment(L, CTX), CTX), (2, 2), None),
@@ -78,7 +78,7 @@ def catalogue():
         "head-remove": (lambda L: E.head_remove(L, CTX), (1, 2), "slicefrom 1"),
         "every-other": (lambda L: L[::2], (2, 1), "everyother 0"),
         "uninterleave-0": (lambda L: E.uninterleave(L, CTX)[0], (2, 1), "everyother 0"),
-        "negate": (lambda L: E.negate(L, CTX), (1, 0), None),
+        "negate": (lambda L: E.negate(L, CTX), (1, 0), "neg 0"),
         "halve": (lambda L: E.halve(L, CTX), (1, 0), None),
         "group-consecutive": (lambda L: E.group_consecutive(L, CTX), (1, 2), None),
     }
